@@ -199,6 +199,9 @@ def _cases(ctx, broken):
     must += [c for c in cases if "skipna0" in c["query"] and c["nl"] == 9 and c["knobs"].get("se") in (2, 3) and c["fuse"]]
     must += [c for c in cases if c["query"] in ("merge_lr_right", "merge_rl_left", "merge_rl_right", "merge_lr_left") and c["knobs"].get("bc") is True
              and c["knobs"].get("sm") == "tasks" and (c["nl"], c["nr"]) in ((5, 2), (3, 9)) and c["fuse"]]
+    # broadcast joins with an npartitions hint below the partition count of the large side (D81)
+    must += [c for c in cases if c["query"] in ("merge_left", "merge_right", "merge_inner") and c["knobs"].get("bc") is True
+             and c["knobs"].get("sm") == "tasks" and c["knobs"].get("np") == 2 and (c["nl"], c["nr"]) in ((9, 3), (3, 9)) and c["fuse"]]
     if ctx.quick:
         cases = must + cases[:200]
     else:
